@@ -12,6 +12,7 @@ func init() {
 	vHarnesses["VerifC07Expand"] = VerifC07Expand
 	vHarnesses["VerifC06ReplaceSuffixOne"] = VerifC06ReplaceSuffixOne
 	vHarnesses["VerifC07ExpandValue"] = VerifC07ExpandValue
+	vHarnesses["VerifC19ExpandTerminates"] = VerifC19ExpandTerminates
 }
 
 // C03: the classification of a line does not depend on the order in which the directive patterns are tried
@@ -130,4 +131,24 @@ func VerifParseKind(l string) int {
 		return 8
 	}
 	return -1
+}
+
+// C19: definition expansion terminates promptly whatever the definitions reference - a definition that mentions itself,
+// two definitions that mention each other, an ordinary chain. (Cyclic references are not expanded meaningfully; the
+// point is that generate returns.)
+func VerifC19ExpandTerminates() {
+	var defs map[string]string
+	switch vParam("shape") {
+	case 0:
+		defs = map[string]string{"a": "x{{a}}"}
+	case 1:
+		defs = map[string]string{"a": "{{b}}", "b": "{{a}}"}
+	case 2:
+		defs = map[string]string{"a": "{{a}}"}
+	default:
+		defs = map[string]string{"a": "{{b}}x", "b": "y"}
+	}
+	out := expandDefinitions(bytes.NewBufferString("{{a}}|z"), defs)
+	vReach("expanded")
+	vAssert(out != nil, "C19 definition expansion returns")
 }
